@@ -5,7 +5,10 @@ VARIABLES vs, generic, forms
 
 \* `V()` and `V {}` are variants of their kind with no field: accessors treat them like unit variants
 Kinds == {[k |-> "unit", tys |-> <<>>], [k |-> "tuple", tys |-> <<>>], [k |-> "tuple", tys |-> <<"A">>], [k |-> "tuple", tys |-> <<"B">>],
-          [k |-> "tuple", tys |-> <<"A", "B">>], [k |-> "tuple", tys |-> <<"B", "A">>]}
+          [k |-> "tuple", tys |-> <<"A", "B">>], [k |-> "tuple", tys |-> <<"B", "A">>],
+          \* a field whose TYPE is the one-element tuple `(A,)`: a different type from `A` (its own TryFrom target, `((A,),)`
+          \* never arises: a single live field converts to the field's type itself)
+          [k |-> "tuple", tys |-> <<"(A,)">>]}
          \cup (IF AllowNamed THEN {[k |-> "named", tys |-> <<>>], [k |-> "named", tys |-> <<"A">>], [k |-> "named", tys |-> <<"A", "B">>]} ELSE {})
 \* tuple / named variants with field-level #[try_into(ignore)]: leading, trailing and MIDDLE ignored fields, with
 \* equal neighbouring types so that binding the wrong field still type-checks
